@@ -53,6 +53,7 @@ def exec_scenario(scn):
         cancel_plan={int(k): v for k, v in (scn.get("cancel_plan") or {}).items()},
         max_events=scn.get("max_events", 400_000),
         burst=scn.get("burst", True),
+        record_sites=tuple(scn["record_sites"]) if scn.get("record_sites") else None,
     )
     if replay:
         baton.exit_table = {int(t): to for t, to in (scn.get("exits") or [])}
@@ -76,6 +77,8 @@ def exec_scenario(scn):
     def recheck(t, j, only_thread=None):
         for r in results:
             if only_thread is not None and r["t"] != only_thread:
+                continue
+            if r.get("scribbled"):
                 continue
             stats["rechecks"] += 1
             if r["masked"]:
@@ -117,7 +120,7 @@ def exec_scenario(scn):
 
                     tok, ext_list = ops.h2_tokenizer(op)
                     ext_ref = list(ext_list)
-                    res = get_citations(op.get("text", ""), tokenizer=tok)
+                    res = get_citations(ops.fresh_str(op.get("text", "")), tokenizer=tok)
                 baton.end_op(t)
                 outcome = ser.citations(res)
             except (SimCancelled, SimOverrun):
@@ -136,10 +139,11 @@ def exec_scenario(scn):
             obs.append((t, j, kd, od))
             if want_full:
                 full[f"{t}.{j}"] = outcome
-            if res is not None and not (kind == "H1" and op.get("text") == "eyecite"):
+            if (res is not None and op.get("keep", True)
+                    and not (kind == "H1" and op.get("text") == "eyecite")):
                 retain(t, j, op, res)
         elif kind == "H3":
-            mine = [r for r in results if r["t"] == t]
+            mine = [r for r in results if r["t"] == t and not r.get("scribbled")]
             if not mine:
                 return
             r = mine[op.get("r", 0) % len(mine)]
@@ -159,6 +163,7 @@ def exec_scenario(scn):
                 pass
         elif kind == "H4":
             mine = [r for r in results if r["t"] == t and r["op"]["op"] == "H1"
+                    and not r.get("scribbled")
                     and r["op"].get("markup") is None and not r["op"].get("clean")]
             if not mine:
                 return
@@ -177,6 +182,31 @@ def exec_scenario(scn):
                 retain(t, j, {"op": "H4refs", "text": r["op"].get("text", "")}, refs)
             except (SimCancelled, SimOverrun):
                 raise
+            except Exception:
+                pass
+        elif kind == "H7":
+            # a caller scribbles on a result it owns; whatever it does there must
+            # not reach the library's own state or any other result
+            mine = [r for r in results if r["t"] == t and not r.get("scribbled")]
+            if not mine:
+                return
+            r = mine[op.get("r", 0) % len(mine)]
+            r["scribbled"] = True
+            try:
+                for c in list(r["res"]):
+                    c.metadata.pin_cite = "SCRIBBLE"
+                    c.metadata.parenthetical = "SCRIBBLE"
+                    if isinstance(c.groups, dict):
+                        if "page" in c.groups:
+                            c.groups["page"] = "999999"
+                        c.groups["scribble"] = "x"
+                    if hasattr(c, "year"):
+                        c.year = 1066
+                    if hasattr(c, "edition_guess"):
+                        c.edition_guess = None
+                    c.token.start = -5
+                if isinstance(r["res"], list):
+                    del r["res"][: len(r["res"]) // 2]
             except Exception:
                 pass
         elif kind == "RC":
@@ -217,6 +247,7 @@ def exec_scenario(scn):
                for t, th in enumerate(threads) for j, op in enumerate(th) if op.get("_derived")]
     out = {
         "obs": obs, "viol": viol, "derived": derived, "op_events": op_events,
+        "sites": sorted([v[0], v[1], v[2], v[3], k[1]] for k, v in baton.sites.items()),
         "events": baton.events, "switches": baton.switches,
         "digest": baton.digest(), "first": baton.first,
         "recorded": baton.recorded, "exits": baton.exit_recorded,
@@ -343,10 +374,15 @@ class ScenarioGen:
                     if g.random() < 0.5:
                         opsl.append(op)
                         op = {"op": "H4", "r": g.randrange(8), "c": g.randrange(4), "name": "Foo"}
-                elif x < 0.95:
+                elif x < 0.94:
                     op = {"op": "RC"}
+                elif x < 0.97:
+                    opsl.append({"op": "H7", "r": g.randrange(8)})
+                    op = {"op": "H1", "text": text}
                 else:
                     op = {"op": "GC"}
+                if op["op"] in JUDGED and g.random() < 0.35:
+                    op["keep"] = False     # the caller drops this result at once
                 opsl.append(op)
             threads.append(opsl)
         cancel_plan = {}
@@ -452,10 +488,10 @@ def hashctx_batch(job):
 
 TIERS = {
     # runs, sim seconds cap, hash contexts, hashctx corpus extra docs
-    "quick": {"runs": 2400, "sim_s": 40, "ctx": 24, "docs": 600, "ctx_s": 60,
-              "sweep_pairs": 4, "sweep_stride": 3, "sweep_s": 25, "base_s": 25},
+    "quick": {"runs": 2400, "sim_s": 35, "ctx": 24, "docs": 600, "ctx_s": 60,
+              "sweep_pairs": 6, "sweep_stride": 1, "sweep_all_pairs": 0, "sweep_s": 30, "base_s": 22},
     "thorough": {"runs": 60000, "sim_s": 900, "ctx": 192, "docs": 4000, "ctx_s": 500,
-                 "sweep_pairs": 40, "sweep_stride": 1, "sweep_s": 600, "base_s": 400},
+                 "sweep_pairs": 150, "sweep_stride": 1, "sweep_all_pairs": 12, "sweep_s": 700, "base_s": 400},
 }
 
 
@@ -593,93 +629,138 @@ class Checker:
                                     on_result=got, deadline=deadline, stop=stop)
         return started
 
-    # -- phase A2: single-pre-emption sweep ---------------------------------------
+    # -- phase A2: single-pre-emption and single-cancellation sweeps -----------------
     def phase_sweep(self, atlas):
-        """For seeded pairs of documents (A, B): thread 0 extracts A, thread 1
-        extracts B.  One run per line event k of A's call: thread 0 is pre-empted
-        at exactly that event, thread 1 runs its whole call, thread 0 resumes.
-        With stride 1 this enumerates *every* single-pre-emption interleaving of
-        the two calls, so a check-then-act window of any width is hit by
-        construction rather than by luck."""
+        """Systematic schedules around seeded pairs of documents (A, B).
+
+        Pre-emption sweep: thread 0 extracts A, thread 1 extracts B; one run per
+        pre-emption point k of A's call: thread 0 is pre-empted at exactly that
+        line event, thread 1 runs its whole call, thread 0 resumes.
+        Cancellation sweep: one thread; A's call is aborted by an asynchronous
+        exception at point k, then A and B are extracted again and judged.
+
+        Points: in `sites` mode the first and the last execution of every
+        distinct source line of the call (a window between two adjacent
+        statements is hit by construction, whatever its width and however
+        rarely the path runs); in `all` mode every line event (stride 1 =
+        every single-pre-emption interleaving of the two calls)."""
         g = seeds.Streams(seeds.h64(self.root, "sweep")).get("gen")
         tg = textgen.Gen(g, atlas)
         ties = [a for a in atlas if a["tie"]]
         stride = max(1, int(os.environ.get("VERIF_C15_SWEEP_STRIDE", self.cfg["sweep_stride"])))
         npairs = int(os.environ.get("VERIF_C15_SWEEP_PAIRS", self.cfg["sweep_pairs"]))
-        deadline = time.monotonic() + self.cfg["sweep_s"]
-        sw = self.sweep = {"pairs": 0, "points_total": 0, "runs": 0, "stride": stride,
-                           "complete_pairs": 0, "samples": []}
+        n_all = self.cfg.get("sweep_all_pairs", 0)
+        t_end = time.monotonic() + self.cfg["sweep_s"]
+        sw = self.sweep = {"pairs": 0, "preemption_runs": 0, "cancellation_runs": 0,
+                           "line_events_of_A_total": 0, "distinct_sites_total": 0,
+                           "pairs_in_all_events_mode": 0, "stride_in_all_events_mode": stride,
+                           "complete_preemption_sweeps": 0, "complete_cancellation_sweeps": 0,
+                           "skipped_long": 0, "samples": []}
 
         def doc():
-            fr = [tg.pick(ties)] if ties and g.random() < 0.6 else None
+            fr = [tg.pick(ties)] if ties and g.random() < 0.5 else None
             t = tg.document(n_items=g.randrange(1, 3), frags=None)
             if fr:
                 t = tg.cite(fr[0]) + "; " + t
             return t[:300]
 
-        def mkop(text):
-            x = g.random()
-            if x < 0.2:
+        def mkop(text, mode):
+            if mode == "markup":
                 return {"op": "H1", "text": "", "markup": tg.markup(text),
-                        "clean": ["html", "all_whitespace"]}
-            if x < 0.3:
+                        "clean": g.choice([["html", "all_whitespace"], ["html"]])}
+            if mode == "ra":
                 return {"op": "H1", "text": text, "ra": True}
             return {"op": "H1", "text": text}
 
-        for pi in range(npairs * 3):
-            if time.monotonic() > deadline or sw["pairs"] >= npairs:
-                break
+        def absorb(scn, r, prov):
+            self.cnt["events"] += r["events"]
+            self.cnt["switches"] += r["switches"]
+            self.cnt["cancellations"] += r["stats"]["cancelled"]
+            for name in r["cancel_sites"]:
+                self.cancel_sites[name] = self.cancel_sites.get(name, 0) + 1
+            if len(scn["threads"]) > 1:
+                self.interleavings.add(r["digest"])
+            for (t, j, kd, od) in r["obs"]:
+                if not self.observe(kd, od, prov + (t, j), "threads" if len(scn["threads"]) > 1 else "history",
+                                    op=scn["threads"][t][j]):
+                    self.suspects[-1]["scn"] = dict(scn)
+                    self.suspects[-1]["op"] = scn["threads"][t][j]
+            for (cls, t, j, detail) in r["viol"]:
+                self.suspects.append({"class": cls, "scn": dict(scn), "at": (t, j),
+                                      "detail": detail, "run": prov})
+
+        tries = 0
+        while sw["pairs"] < npairs and tries < npairs * 4 and time.monotonic() < t_end:
+            tries += 1
+            pi = tries
             a, b = doc(), doc()
             if g.random() < 0.2:
                 b = a
-            opa, opb = mkop(a), mkop(b)
-            base = {"seed": seeds.h64(self.root, "sweep", pi), "threads": [[opa], [opb]],
+            x = g.random()
+            ma, mb_ = (("markup", "markup") if x < 0.3 else ("plain", "plain") if x < 0.65 else
+                       ("ra", "plain") if x < 0.8 else ("markup", "plain") if x < 0.9 else ("plain", "markup"))
+            opa, opb = mkop(a, ma), mkop(b, mb_)
+            # after the interleaved calls each thread extracts the *other* document
+            # once more, so that state polluted inside the window shows in a later,
+            # undisturbed call as well
+            base = {"seed": seeds.h64(self.root, "sweep", pi),
+                    "threads": [[opa, dict(opb)], [opb, dict(opa)]],
                     "p": 0.0, "setorder": "off", "cancel_plan": {}, "table": [],
                     "exits": [[1, 0], [0, 1]], "first": 0, "burst": False}
-            res = forkpool.fork_call(exec_scenario, base, timeout=120)
+            res = forkpool.fork_call(exec_scenario, dict(base, record_sites=[0, 0]), timeout=120)
             if "_harness" in res:
                 self.harness.append({"sweep": res})
                 continue
             na = max([n for (t, j, n) in res["op_events"] if t == 0 and j == 0] or [0])
-            if na <= 0 or na > self.cfg.get("sweep_max_events", 6000):
-                sw["skipped_long"] = sw.get("skipped_long", 0) + 1
+            if na <= 0 or na > self.cfg.get("sweep_max_events", 8000):
+                sw["skipped_long"] += 1
                 continue
+            absorb(base, res, ("sweep-base", pi))
             sw["pairs"] += 1
             self.sweep_bases[pi] = base
-            off = 1 + (pi % stride)
-            points = list(range(off, na + 1, stride))
-            sw["points_total"] += na
-            done = [0]
+            sites = res["sites"]
+            sw["line_events_of_A_total"] += na
+            sw["distinct_sites_total"] += len(sites)
+            all_mode = sw["pairs_in_all_events_mode"] < n_all
+            if all_mode:
+                sw["pairs_in_all_events_mode"] += 1
+                points = list(range(1, na + 1, stride))
+            else:
+                points = sorted(set([x[0] for x in sites] + [x[1] for x in sites]))
+            cpoints = sorted(set(x[0] for x in sites)) if not all_mode else points
+            done = [0, 0]
 
-            def jobs(points=points, base=base):
+            def jobs():
                 for k in points:
                     yield dict(base, table=[[0, 0, k, "switch", 1]])
+                single = dict(base, threads=[[opa, dict(opa), opb, {"op": "RC"}]], exits=[])
+                for k in cpoints:
+                    yield dict(single, table=[[0, 0, k, "cancel", None]])
 
-            def got(i, scn, r, done=done, pi=pi):
+            def got(i, scn, r):
                 if "_harness" in r:
                     self.harness.append({"sweep_run": r})
                     return
-                done[0] += 1
-                sw["runs"] += 1
-                self.cnt["events"] += r["events"]
-                self.cnt["switches"] += r["switches"]
-                self.interleavings.add(r["digest"])
-                for (t, j, kd, od) in r["obs"]:
-                    if not self.observe(kd, od, ("sweep", pi, scn["table"][0][2], t), "threads",
-                                        op=scn["threads"][t][j]):
-                        self.suspects[-1]["scn"] = dict(scn)
-                        self.suspects[-1]["op"] = scn["threads"][t][j]
-                for (cls, t, j, detail) in r["viol"]:
-                    self.suspects.append({"class": cls, "scn": dict(scn), "at": (t, j),
-                                          "detail": detail, "run": ("sweep", pi)})
+                if len(scn["threads"]) > 1:
+                    done[0] += 1
+                    sw["preemption_runs"] += 1
+                    absorb(scn, r, ("sweep", pi, scn["table"][0][2]))
+                else:
+                    done[1] += 1
+                    sw["cancellation_runs"] += 1
+                    absorb(scn, r, ("cancel-sweep", pi, scn["table"][0][2]))
 
             forkpool.run_jobs(jobs(), exec_scenario, workers=_cpu(), timeout=90, on_result=got,
-                              deadline=deadline, stop=lambda: len(self.suspects) >= 40)
+                              deadline=t_end, stop=lambda: len(self.suspects) >= 40)
             if done[0] == len(points):
-                sw["complete_pairs"] += 1
+                sw["complete_preemption_sweeps"] += 1
+            if done[1] == len(cpoints):
+                sw["complete_cancellation_sweeps"] += 1
             if len(sw["samples"]) < 2:
                 sw["samples"].append({"A": _op_brief(opa), "B": _op_brief(opb), "line_events_of_A": na,
-                                      "preemption_points_run": done[0]})
+                                      "distinct_source_lines_of_A": len(sites),
+                                      "mode": "all events" if all_mode else "first+last execution of every line",
+                                      "preemption_points_run": done[0], "cancellation_points_run": done[1]})
 
     # -- phase A3: isolated baselines ----------------------------------------------
     def phase_baselines(self):
@@ -719,11 +800,17 @@ class Checker:
             if "_harness" in res:
                 return None
             return to_replayable(scn, res)
-        if prov[0] == "sweep":
+        if prov[0] in ("sweep", "sweep-base", "cancel-sweep"):
             base = self.sweep_bases.get(prov[1])
             if base is None:
                 return None
-            return dict(base, table=[[0, 0, prov[2], "switch", 1]])
+            if prov[0] == "sweep-base":
+                return dict(base)
+            if prov[0] == "sweep":
+                return dict(base, table=[[0, 0, prov[2], "switch", 1]])
+            opa, opb = base["threads"][0][0], base["threads"][1][0]
+            return dict(base, threads=[[opa, dict(opa), opb, {"op": "RC"}]], exits=[],
+                        table=[[0, 0, prov[2], "cancel", None]])
         return None
 
     # -- phase B: hash contexts -----------------------------------------------
@@ -1134,8 +1221,9 @@ def run(tier, verif_seed, log=print):
     log(f"[C15] simulated runs: {ck.cnt['runs']} (started {started}), events={ck.cnt['events']}, "
         f"switches={ck.cnt['switches']}, suspects={len(ck.suspects)} ({time.monotonic() - t0:.1f}s)")
     ck.phase_sweep(atlas)
-    log(f"[C15] single-pre-emption sweep: {ck.sweep['pairs']} pairs, {ck.sweep['runs']} runs over "
-        f"{ck.sweep['points_total']} pre-emption points (stride {ck.sweep['stride']}), "
+    log(f"[C15] sweeps: {ck.sweep['pairs']} pairs, {ck.sweep['preemption_runs']} single-pre-emption runs, "
+        f"{ck.sweep['cancellation_runs']} single-cancellation runs over {ck.sweep['distinct_sites_total']} "
+        f"source lines / {ck.sweep['line_events_of_A_total']} line events, "
         f"suspects={len(ck.suspects)} ({time.monotonic() - t0:.1f}s)")
     ck.phase_baselines()
     log(f"[C15] isolated baselines: {ck.baselines['evaluated']}/{ck.baselines['keys']} keys, "
